@@ -139,6 +139,59 @@ func cmdLockScript(args []string) error {
 		}
 		a.Unlock()
 	}
+	// ---- independence while a third party is blocked: H1 is inside; H2 asks for a map that conflicts with H1 and
+	// waits; H3, compatible with everything that is HELD, must get inside although H2 is still waiting
+	triples := [][3]commservices.LockMap{
+		{{"x": true}, {"x": true, "y": true}, {"y": true, "z": true}},
+		{{"x": true}, {"x": true, "y": true}, {"p": true, "q": true}},
+		{{"m": false, "x": true}, {"a": true, "x": false}, {"m": false, "p": true, "q": false}},
+	}
+	for ti, tr := range triples {
+		executed++
+		sm := mutex.NewSharedMutex()
+		h1 := sm.Lock(tr[0])
+		waiting := make(chan struct{})
+		var once sync.Once
+		mutex.VerifHook = func(site, name string, write bool) {
+			if site == "lock.next" && name == "x" {
+				once.Do(func() { close(waiting) })
+			}
+		}
+		h2in := make(chan struct{})
+		go func() {
+			b := sm.Lock(tr[1])
+			close(h2in)
+			b.Unlock()
+		}()
+		select {
+		case <-waiting:
+			time.Sleep(3 * time.Millisecond) // H2 is now parked on x (or about to be)
+		case <-time.After(2 * time.Second):
+			mutex.VerifHook = nil
+			add("infra:hook-not-reached", fmt.Sprintf("triple %d", ti), "H2 never reached lock.next for x")
+			h1.Unlock()
+			continue
+		}
+		mutex.VerifHook = nil
+		h3in := make(chan struct{})
+		go func() {
+			c := sm.Lock(tr[2])
+			close(h3in)
+			c.Unlock()
+		}()
+		select {
+		case <-h3in:
+		case <-time.After(5 * time.Second):
+			add("serialised", fmt.Sprintf("triple %d %v", ti, tr), "a holder compatible with everything held did not get inside within 5 s while another request was waiting for a busy name")
+		}
+		h1.Unlock()
+		select {
+		case <-h2in:
+		case <-time.After(5 * time.Second):
+			add("deadlock", fmt.Sprintf("triple %d %v", ti, tr), "the waiting holder never got its turn after the first one left")
+			return finish(executed, byKey, examples, samples)
+		}
+	}
 	return finish(executed, byKey, examples, samples)
 }
 
